@@ -14,6 +14,8 @@ import (
 	"runtime"
 	"sort"
 	"strings"
+	"sync"
+	"sync/atomic"
 
 	app "github.com/Dash-Industry-Forum/livesim2/cmd/cmaf-ingest-receiver/app"
 	"github.com/Eyevinn/dash-mpd/mpd"
@@ -28,7 +30,7 @@ func main() {
 // ---------------------------------------------------------------- inputs
 
 type c17op struct {
-	K    string `json:"k"` // scadd scdrop scresize scfull scnew scmin | badd bget bresize bdrop bunshift | gadd gstart gdrop gresize ggen | recv
+	K    string `json:"k"` // scadd scdrop scresize scfull scnew scmin | badd bget bresize bdrop bunshift | gadd gstart gdrop gresize ggen | init recv
 	N    int64  `json:"n,omitempty"`
 	M    int64  `json:"m,omitempty"`
 	Name int    `json:"name,omitempty"`
@@ -44,7 +46,6 @@ type c17track struct {
 	Init  string `json:"init"`
 	Ext   string `json:"ext"`
 	Media string `json:"media"`
-	Late  int    `json:"late"` // registered (init received) before op number Late; 0 = from the beginning
 }
 
 type c17in struct {
@@ -354,18 +355,11 @@ func runCase(in c17in, workdir string) runOut {
 		dir = d
 		defer os.RemoveAll(dir)
 	}
-	registered := map[int]bool{}
 	register := func(i int) {
 		t := in.Tracks[i]
-		data, err := os.ReadFile(filepath.Join(testdata, t.Asset, t.Init))
-		if err != nil {
-			out.err = err.Error()
-			return
-		}
-		if err := ch.AddInit(t.Name, t.Ext, t.Media, data); err != nil {
+		if err := ch.AddInit(t.Name, t.Ext, t.Media, initBytes[t.Asset+"/"+t.Init]); err != nil {
 			out.err = "AddInit: " + err.Error()
 		}
-		registered[i] = true
 	}
 	switch in.Kind {
 	case 0:
@@ -377,11 +371,6 @@ func runCase(in c17in, workdir string) runOut {
 	case 3:
 		ch = app.VerifNewChannel(dir, in.W, 0)
 		defer ch.Close()
-		for i, t := range in.Tracks {
-			if t.Late == 0 {
-				register(i)
-			}
-		}
 	}
 	snap := func() c17snap {
 		var s c17snap
@@ -414,14 +403,7 @@ func runCase(in c17in, workdir string) runOut {
 		}
 		return l
 	}
-	for opi, o := range in.Ops {
-		if in.Kind == 3 {
-			for i, t := range in.Tracks {
-				if t.Late != 0 && t.Late == opi && !registered[i] {
-					register(i)
-				}
-			}
-		}
+	for _, o := range in.Ops {
 		pre := snap()
 		var res []int64
 		var pub *pubMPD
@@ -470,6 +452,9 @@ func runCase(in c17in, workdir string) runOut {
 				_ = g.Generate(uint32(o.N), asNames(), dir)
 				pub, pubErr = readPub(dir, &prevMPD)
 				res = flatPub(pub)
+			case "init":
+				register(o.Name)
+				res = []int64{int64(indexOf(names, ch.State().MasterTrName))}
 			case "recv":
 				ch.ReceivedSegData(item(o, names), 1, true)
 				pub, pubErr = readPub(dir, &prevMPD)
@@ -632,9 +617,30 @@ func preconds(in c17in, o c17op, pre c17snap) map[string]bool {
 		}
 		if pre.ch.MasterSegDuration == 0 && o.K == "recv" && in.Tracks[o.Name].Name == pre.ch.MasterTrName {
 			p["master_measuring"] = true
+			// if this upload starts the channel, the generator is resized to this window
+			if o.Dur > 0 {
+				wNew := int64(in.W)*tsOf(in.Tracks[o.Name])/o.Dur + 1
+				if int64(sc.NrCounters)+1 > wNew {
+					p["counters_shrunk"] = true
+				}
+				for _, b := range bufs {
+					if int64(b.NrItems)+1 > wNew {
+						p["buffer_shrunk"] = true
+					}
+				}
+			}
 		}
 	}
 	return p
+}
+
+func indexOf(l []string, s string) int {
+	for i, x := range l {
+		if x == s {
+			return i
+		}
+	}
+	return -1
 }
 
 func contains(l []string, s string) bool {
@@ -649,10 +655,14 @@ func contains(l []string, s string) bool {
 // oracle evaluates the property on one executed case; it reports the first violation only
 // (later ones are consequences of the corrupted state).
 func oracle(c *lib.Ctx, id string, in c17in, out runOut) {
+	extra := map[string]bool{}
 	fail := func(opi int, key, what string) {
 		fin := in
 		fin.FailOp = opi
 		fin.Precond = preconds(in, in.Ops[opi], out.pre[opi])
+		for k, v := range extra {
+			fin.Precond[k] = v
+		}
 		c.Fail(id, key, fmt.Sprintf("op %d (%+v): %s", opi, in.Ops[opi], what), fin)
 	}
 	if out.err != "" {
@@ -695,8 +705,11 @@ func oracle(c *lib.Ctx, id string, in c17in, out runOut) {
 				}
 				min := max - w + 1
 				exp := map[int64]int64{}
+				dontCare := map[int64]bool{} // entries that were already outside the window before this add (left there by a shrinking resize)
 				for _, e := range prel {
-					if e.seq >= min {
+					if e.seq < prel[len(prel)-1].seq-w+1 {
+						dontCare[e.seq] = true
+					} else if e.seq >= min {
 						exp[e.seq] = e.cnt
 					}
 				}
@@ -731,7 +744,7 @@ func oracle(c *lib.Ctx, id string, in c17in, out runOut) {
 					}
 				}
 				for k := range got {
-					if _, ok := exp[k]; !ok {
+					if _, ok := exp[k]; !ok && !dontCare[k] {
 						fail(opi, "counters:phantom-entry", fmt.Sprintf("number %d counted but not expected: before %v after %v", k, prel, live))
 						return
 					}
@@ -781,7 +794,11 @@ func oracle(c *lib.Ctx, id string, in c17in, out runOut) {
 				return
 			}
 			for n, b := range g.Buffers {
-				if int64(b.NrItems) > int64(g.WindowSize) && g.Started {
+				if b.NrItems > b.Size || int(b.NrItems) > b.Len {
+					fail(opi, "window:nrItems>size", fmt.Sprintf("track %s: nrItems %d size %d len %d", n, b.NrItems, b.Size, b.Len))
+					return
+				}
+				if in.Kind == 3 && int64(b.NrItems) > int64(g.WindowSize) && g.Started {
 					fail(opi, "window:nrItems>windowSize", fmt.Sprintf("track %s: nrItems %d, windowSize %d", n, b.NrItems, g.WindowSize))
 					return
 				}
@@ -820,6 +837,9 @@ func oracle(c *lib.Ctx, id string, in c17in, out runOut) {
 						tracks = append(tracks, n)
 					}
 					sort.Strings(tracks)
+				}
+				if g.Started && len(tracks) > int(g.NrTracks) {
+					extra["late_track"] = true // a track that was not counted when the generator was started
 				}
 				for _, tn := range tracks {
 					b, ok := g.Buffers[tn]
@@ -906,6 +926,8 @@ func coqOp(o c17op) string {
 		return "OGResize " + lib.Zs(o.N)
 	case "ggen":
 		return "OGGen " + lib.Zs(o.N)
+	case "init":
+		return fmt.Sprintf("OCInit %d", o.Name)
 	case "recv":
 		return fmt.Sprintf("OCRecv %d %s", o.Name, coqItem(o))
 	}
@@ -918,8 +940,10 @@ func coqCase(id int, in c17in, out runOut) string {
 		ops = append(ops, coqOp(in.Ops[i]))
 		if out.obs[i].Panic != "" {
 			obs = append(obs, "ObsPanic "+lib.CoqString(out.obs[i].Panic))
+		} else if l := out.obs[i].L; len(l) > hashAbove {
+			obs = append(obs, fmt.Sprintf("ObsHash %d %d", len(l), obsHash(l)))
 		} else {
-			obs = append(obs, "ObsOk "+lib.Zlist64(out.obs[i].L))
+			obs = append(obs, "ObsOk "+lib.Zlist64(l))
 		}
 	}
 	for _, t := range out.tracks {
@@ -932,9 +956,21 @@ func coqCase(id int, in c17in, out runOut) string {
 	for _, a := range as {
 		asets = append(asets, lib.ZlistInt(a))
 	}
-	return fmt.Sprintf("{| c_id := %d; c_kind := %d; c_w := %d; c_ntracks := %d; c_tracks := [%s]; c_asets := [%s]; c_master := %d;\n  c_ops := [%s];\n  c_obs := [%s] |}",
-		id, in.Kind, in.W, len(trackNames(in)), strings.Join(trs, "; "), strings.Join(asets, "; "), out.master,
+	return fmt.Sprintf("{| c_id := %d; c_kind := %d; c_w := %d; c_ntracks := %d; c_tracks := [%s]; c_asets := [%s];\n  c_ops := [%s];\n  c_obs := [%s] |}",
+		id, in.Kind, in.W, len(trackNames(in)), strings.Join(trs, "; "), strings.Join(asets, "; "),
 		strings.Join(ops, "; "), strings.Join(obs, ";\n   "))
+}
+
+// Observations longer than hashAbove numbers are handed to Coq as (length, polynomial hash mod 2^63);
+// CorrC17.obs_hash computes the same function of the model's observation.
+const hashAbove = 12
+
+func obsHash(l []int64) uint64 {
+	acc := uint64(0)
+	for _, x := range l {
+		acc = (acc*1000003 + uint64(x+2)) & (1<<63 - 1)
+	}
+	return acc
 }
 
 // ---------------------------------------------------------------- main
@@ -943,7 +979,11 @@ func runC17(c *lib.Ctx) error {
 	if err := loadInitInfo(); err != nil {
 		return err
 	}
-	work, err := os.MkdirTemp("", "c17work-")
+	tmpRoot := ""
+	if st, err := os.Stat("/dev/shm"); err == nil && st.IsDir() {
+		tmpRoot = "/dev/shm"
+	}
+	work, err := os.MkdirTemp(tmpRoot, "c17work-")
 	if err != nil {
 		return err
 	}
@@ -968,7 +1008,7 @@ func runC17(c *lib.Ctx) error {
 	ins := generate(c, rng)
 	distinct := map[string]bool{}
 	var terms []string
-	shard, nshard := 250, 0
+	shardBytes, nshard, curBytes := 150000, 0, 0
 	flush := func() {
 		if len(terms) == 0 {
 			return
@@ -977,20 +1017,42 @@ func runC17(c *lib.Ctx) error {
 			lib.CasesFile("From Verif Require Import GoSem Recv CorrC17.", "c17case", "", terms, "model_view"))
 		nshard++
 		terms = nil
+		curBytes = 0
 	}
 	nops := 0
+	outs := make([]runOut, len(ins))
+	{
+		var wg sync.WaitGroup
+		next := int64(-1)
+		for w := 0; w < 8; w++ {
+			wg.Add(1)
+			go func() {
+				defer wg.Done()
+				for {
+					i := int(atomic.AddInt64(&next, 1))
+					if i >= len(ins) {
+						return
+					}
+					outs[i] = runCase(ins[i], work)
+				}
+			}()
+		}
+		wg.Wait()
+	}
 	for i, in := range ins {
 		id := fmt.Sprintf("%d", i)
-		out := runCase(in, work)
+		out := outs[i]
 		c.Res.Inputs[id] = in
 		c.Count(fmt.Sprintf("kind%d:%s", in.Kind, in.Gen))
 		oracle(c, id, in, out)
-		terms = append(terms, coqCase(i, in, out))
+		term := coqCase(i, in, out)
+		terms = append(terms, term)
+		curBytes += len(term)
 		nops += len(out.obs)
 		if len(out.obs) >= 3 {
 			distinct[fmt.Sprintf("%d/%d/%v/%v", in.Kind, in.W, in.Tracks, in.Ops)] = true
 		}
-		if len(terms) >= shard {
+		if curBytes >= shardBytes || len(terms) >= 400 {
 			flush()
 		}
 		if i%997 == 0 {
